@@ -424,15 +424,21 @@ type Listener struct {
 	ch       chan *Conn
 	done     chan struct{}
 	once     sync.Once
+	ready    chan struct{} // closed when Accept is entered for the first time
+	readyOne sync.Once
 	Closes   atomic.Int32
 	accepted atomic.Int64
 }
 
 func NewListener() *Listener {
-	return &Listener{ch: make(chan *Conn, 1024), done: make(chan struct{})}
+	return &Listener{ch: make(chan *Conn, 1024), done: make(chan struct{}), ready: make(chan struct{})}
 }
 
+// Ready is closed once the server has entered its accept loop.
+func (l *Listener) Ready() <-chan struct{} { return l.ready }
+
 func (l *Listener) Accept() (net.Conn, error) {
+	l.readyOne.Do(func() { close(l.ready) })
 	select {
 	case <-l.done:
 		return nil, net.ErrClosed
